@@ -1085,8 +1085,16 @@ impl DeriveEntry {
         let mut args_list = Vec::new();
         if let Some(attr) = attr {
             args_list.push(parse2(attr)?);
+            args_list.extend(parse_derive_ex_attrs(attrs)?);
+        } else {
+            // Under `#[derive(Ex)]` only the bare `#[derive_ex(..)]` is a helper attribute. A list written with
+            // the crate path is an invocation of the attribute macro, which rustc expands on its own.
+            for attr in attrs {
+                if attr.path().is_ident("derive_ex") {
+                    args_list.push(attr.parse_args()?);
+                }
+            }
         }
-        args_list.extend(parse_derive_ex_attrs(attrs)?);
         Self::from_args_list(&args_list)
     }
     fn from_args_list(args_list: &[Args]) -> Result<Vec<Self>> {
